@@ -18,6 +18,15 @@ func (s *Server) backgroundExpiring(wg *sync.WaitGroup) {
 	s.loopUntilServerStops(bgExpireDelay, func() {
 		s.mu.LockLowPriority()
 		defer s.mu.Unlock()
+		if s.config.followHost() != "" {
+			// A follower applies the DEL / DELHOOK / DELCHAN commands that
+			// its leader logs for everything the leader expires. Expiring
+			// on its own clock as well makes the two diverge: when a
+			// PERSIST, EXPIRE or SET of the leader reaches the follower
+			// after the follower already dropped the object, the command
+			// finds nothing and the object is missing for good.
+			return
+		}
 		now := time.Now()
 		s.backgroundExpireObjects(now)
 		s.backgroundExpireHooks(now)
